@@ -25,6 +25,9 @@ var Battery = []string{
 	`[{"a":[1,2,3],"b":"ab"},{"a":"ab","b":[1]},{"a":1.5,"b":1.5}]`,
 	`{"a":{"a":{"a":{"a":null}}},"b":[[[[1]]]]}`,
 	`[{"a":1,"b":1},{"a":1,"b":2},{"a":2,"b":2},{"a":"a","b":"a"},{"a":[1],"b":[1]},{"a":{"c":1},"b":{"c":1}}]`,
+	// containers beyond the small sizes: 20 elements, 12 members (table / small-size fast paths end somewhere)
+	`[0,1,2,3,4,5,6,7,8,9,10,11,12,13,14,15,{"a":16,"b":[0,1,2,3,4,5,6,7,8,9,10,11,12,13,14,15,16,17]},17,{"a":18},19]`,
+	`{"k05":5,"a":{"k11":1,"k10":2,"k09":3,"k08":4,"k07":5,"k06":6,"k05":7,"k04":8,"k03":9,"k02":10,"a":11,"b":12},"k03":3,"k09":9,"b":2,"k01":1,"k07":7,"c":[1],"k02":2,"k08":8,"k04":4,"k06":6}`,
 }
 
 // DocFor builds a document on which the path is likely (but not certain) to
@@ -33,6 +36,10 @@ var Battery = []string{
 // mistype all stay frequent.
 func (g *Gen) DocFor(p *spec.Path) interface{} {
 	g.budget = 300 // planted structure is bounded whatever the path looks like (long paths would otherwise grow it exponentially)
+	g.long = 0
+	if g.R.Intn(16) == 0 {
+		g.long = 1 + g.R.Intn(2) // up to two containers of this document are padded beyond the small sizes
+	}
 	d := g.build(p.Steps, 0, nil)
 	// $-rooted operands inside filters look at the root: give it some members
 	if m, ok := d.(map[string]interface{}); ok && g.R.Intn(2) == 0 {
@@ -50,6 +57,63 @@ func (g *Gen) DocFor(p *spec.Path) interface{} {
 }
 
 func (g *Gen) hit() bool { return g.R.Intn(10) < 7 }
+
+// longSize draws a container size beyond the small ones (size-dependent fast paths end at some power of two).
+func (g *Gen) longSize() int {
+	switch x := g.R.Intn(16); {
+	case x < 10:
+		return 17 + g.R.Intn(8)
+	case x < 13:
+		return 33 + g.R.Intn(4)
+	case x < 15:
+		return 65 + g.R.Intn(4)
+	}
+	return 257 + g.R.Intn(4)
+}
+
+// padList pads l (in a document marked long) with cheap values, the planted elements spread over the result.
+func (g *Gen) padList(l []interface{}) []interface{} {
+	if g.long <= 0 || g.R.Intn(2) == 0 {
+		return l
+	}
+	g.long--
+	n := g.longSize()
+	out := make([]interface{}, 0, n)
+	for len(out)+len(l) < n {
+		if len(l) > 0 && g.R.Intn(4) == 0 {
+			out = append(out, l[0])
+			l = l[1:]
+			continue
+		}
+		if g.R.Intn(3) == 0 {
+			out = append(out, g.Doc(1))
+		} else {
+			out = append(out, float64(len(out)))
+		}
+	}
+	return append(out, l...)
+}
+
+// padObject does the same for objects (keys k000..).
+func (g *Gen) padObject(m map[string]interface{}) map[string]interface{} {
+	if g.long <= 0 || g.R.Intn(2) == 0 {
+		return m
+	}
+	g.long--
+	n := g.longSize()
+	if n > 80 {
+		n = 80
+	}
+	for i := 0; len(m) < n; i++ {
+		k := "k" + string(rune('0'+i/100)) + string(rune('0'+i/10%10)) + string(rune('0'+i%10))
+		if g.R.Intn(3) == 0 {
+			m[k] = g.Doc(1)
+		} else {
+			m[k] = float64(i)
+		}
+	}
+	return m
+}
 
 func (g *Gen) build(steps []spec.Step, i int, q *spec.Query) interface{} {
 	g.budget--
@@ -75,13 +139,13 @@ func (g *Gen) build(steps []spec.Step, i int, q *spec.Query) interface{} {
 			for j := range l {
 				l[j] = g.build(steps, i+1, nil)
 			}
-			return l
+			return g.padList(l)
 		}
 		m := map[string]interface{}{}
 		for j := 0; j < n; j++ {
 			m[g.key()] = g.build(steps, i+1, nil)
 		}
-		return m
+		return g.padObject(m)
 	case spec.KMulti:
 		allWild := true
 		for _, it := range s.Items {
@@ -93,7 +157,7 @@ func (g *Gen) build(steps []spec.Step, i int, q *spec.Query) interface{} {
 			for j := range l {
 				l[j] = g.build(steps, i+1, nil)
 			}
-			return l
+			return g.padList(l)
 		}
 		m := g.objectWith(g.R.Intn(2))
 		for _, it := range s.Items {
@@ -101,7 +165,7 @@ func (g *Gen) build(steps []spec.Step, i int, q *spec.Query) interface{} {
 				m[it.Key] = g.build(steps, i+1, nil)
 			}
 		}
-		return m
+		return g.padObject(m)
 	case spec.KUnion:
 		need := int64(1)
 		for _, su := range s.Subs {
@@ -125,7 +189,7 @@ func (g *Gen) build(steps []spec.Step, i int, q *spec.Query) interface{} {
 		for j := range l {
 			l[j] = g.build(steps, i+1, nil)
 		}
-		return l
+		return g.padList(l)
 	case spec.KFilter:
 		n := 1 + g.R.Intn(4)
 		members := make([]interface{}, n)
@@ -137,13 +201,13 @@ func (g *Gen) build(steps []spec.Step, i int, q *spec.Query) interface{} {
 			members[j] = m
 		}
 		if g.R.Intn(2) == 0 {
-			return members
+			return g.padList(members)
 		}
 		obj := map[string]interface{}{}
 		for _, m := range members {
 			obj[g.key()] = m
 		}
-		return obj
+		return g.padObject(obj)
 	case spec.KRec:
 		inner := g.build(steps, i+1, nil)
 		for d := g.R.Intn(3); d > 0; d-- {
